@@ -81,7 +81,10 @@ pub fn prepare_grammar(g: Grammar, profile: &'static str, k_limit: usize, cfg: &
 }
 
 pub fn prepare(rng: &mut Rng, p: &'static Profile) -> (String, usize, Prep) {
-    let g = wl::gen_grammar(rng, p);
+    let mut g = wl::gen_grammar(rng, p);
+    if rng.chance(1, 4) {
+        wl::decorate_occurrences(&mut g, rng);
+    }
     let k_limit = draw_k(rng, &g);
     let par = g.to_par();
     (par, k_limit, prepare_grammar(g, p.name, k_limit, &GenCfg::default()))
